@@ -1086,8 +1086,6 @@ Definition step_call (E : evals) (rho : env) (name : bytes) (args : list query) 
                | None => skipM "undefined-function"
                end)
     end in
-  (* every loop of a jq program goes through a call: counting calls bounds the total work *)
-  tick ;;
   if is_var_name name && Nat.eqb arity 0 then
     match lookup_var rho name with
     | Some x => k x ps
@@ -1095,11 +1093,13 @@ Definition step_call (E : evals) (rho : env) (name : bytes) (args : list query) 
     end
   else
     match lookup_fun rho name arity with
-    | Some (CFun fd defenv) => apply fd defenv
-    | Some (CClos body cenv) => ev_q E cenv body v ps k
+    (* every loop of a jq program goes through the application of a jq-defined function or of a
+       filter argument: counting those bounds the total work *)
+    | Some (CFun fd defenv) => tick ;; apply fd defenv
+    | Some (CClos body cenv) => tick ;; ev_q E cenv body v ps k
     | None =>
         match lookup_builtin builtins name arity with
-        | Some fd => apply fd []
+        | Some fd => tick ;; apply fd []
         | None => guard_repsens name (fst v) (native tt)
         end
     end.
